@@ -25,6 +25,16 @@ for mp in sorted(glob.glob("/verif/seeded/*/meta.json")):
                 res += " (" + l.split("signature:")[1].strip()[:80] + ")"
     rows.append((sid, m["property"], res))
     print(sid, res, flush=True)
+if only and os.path.exists("/verif/seeded/SWEEP.md"):
+    # partial re-run: keep the other rows of the previous sweep
+    prev = {}
+    for l in open("/verif/seeded/SWEEP.md"):
+        p = [x.strip() for x in l.strip().strip("|").split("|")]
+        if len(p) == 3 and p[0] not in ("id", "---"):
+            prev[p[0]] = (p[0], p[1], p[2])
+    for r in rows:
+        prev[r[0]] = r
+    rows = [prev[k] for k in sorted(prev)]
 with open("/verif/seeded/SWEEP.md", "w") as f:
     f.write("# Seeded changes re-run against /repo HEAD %s (%s)\n\n| id | property | result of the quick check |\n|---|---|---|\n" % (head, time.strftime("%Y-%m-%d %H:%M")))
     for r in rows:
